@@ -84,8 +84,11 @@ def known_findings():
     return json.load(open(p)).get('findings', [])
 
 
-def run_native(pid, tier, seed, focus=None, timeout=1500):
+def run_native(pid, tier, seed, focus=None, timeout=None):
     """bounded native evaluation of the contracts on the real code (under /venv/bin/python)."""
+    if timeout is None:
+        # above the sum of the per-function budgets of any harness (quick: <= 700 s, thorough: <= 3000 s), with room for a loaded machine
+        timeout = 1800 if tier == 'quick' else 10800
     work = os.path.join(OUT, '.work')
     os.makedirs(work, exist_ok=True)
     out = os.path.join(work, f'{pid}.native.json')
